@@ -128,7 +128,7 @@ func c16StartCons(s *srv.Server, kind, name string, inc int) (*c16Cons, error) {
 
 func c16Spec(r interface{ Intn(int) int }, codec [2]string) gen.EsSpec {
 	sp := gen.EsSpec{VCodec: codec[0], ACodec: codec[1], NVideo: 30 + r.Intn(60), GopLen: 5 + r.Intn(8), AudioPer: 1 + r.Intn(3), MaxNals: 1 + r.Intn(3),
-		InBandPS: r.Intn(2) == 0, AudSei: r.Intn(3) == 0, BFrames: r.Intn(2) == 0, TsStart: []uint32{0, 1000, 0xFFFFFF - 500}[r.Intn(3)], AudioGap: r.Intn(3) == 0}
+		InBandPS: r.Intn(2) == 0, AudSei: r.Intn(3) == 0, BFrames: r.Intn(2) == 0, TsStart: []uint32{0, 1000, 0xFFFFFF - 500}[r.Intn(3)], AudioGap: r.Intn(3) == 0, LonePS: r.Intn(3) == 0}
 	if codec[1] == "aac" {
 		sp.AacIdx = []int{3, 4, 8, 11}[r.Intn(4)]
 		sp.AacChans = 1 + r.Intn(2)
